@@ -875,8 +875,8 @@ func c06LazyTable() []c06Case {
 		"[$UE, $IE].contains(User::\"a\")", "{a: $UE, b: $IE}.a == User::\"a\"", "{a: $IE} has a && $UB", "$UB && ({a: $IE}.a == User::\"a\")",
 		"$UE == User::\"a\" && $UE in $IE", "$UE in $IE || $UB",
 	}
-	// the witness of C06_nested_ignore_not_widened_counterexample and its neighbours (known finding
-	// nested-ignore-consumed-whole; the last two reach the marker itself and are widened)
+	// the witness of the former C06_nested_ignore_not_widened_counterexample and its neighbours (finding
+	// nested-ignore-consumed-whole, repaired: all are widened; the last two reach the marker itself)
 	recn := tableTemplate(nil, nil, nil, rec("n", types.Long(1), "k", V("k"), "r", rec("a", vh.MkIgnore()), "ls", types.NewSet(types.Long(1), vh.MkIgnore())), kinds)
 	recn.NestedIgn = []vh.NestedIgn{{Path: "context.r.a", Kind: vh.TLong, Base: types.Long(1)}, {Path: "context.ls[]", Kind: vh.TLong, Base: types.Long(5)}}
 	for bi, body := range []string{"context.r == {a: 1}", "context.ls.contains(5)", "context.k && context.r == {a: 1}", "(if context.k then context.r else {a: 2}) == {a: 1}",
